@@ -552,6 +552,17 @@ func init() {
 			e.note("io.Seeker.Seek: documented contract assumed (new offset = base(whence) + offset; negative result is an error)")
 			return Val{Typ: rt, Terms: []*smt.Term{c.Ite(okc, target, z), errv.Terms[0], errv.Terms[1]}}
 		},
+		// ctx.Done(): a signal channel - nothing is ever sent on it, it is only closed; every call yields a channel whose
+		// closed flag is unknown (cancellation by another goroutine or a timer may have happened at any time)
+		"context.Context.Done": func(e *Engine, f *frame, st *State, recv Val, args []Val, rt types.Type, pos string) Val {
+			v := e.havocResult(st, "ctxdone", rt)
+			if ci, ok := e.chanInfoOf(rt); ok {
+				_, ln, _, _ := e.chanArrs(st, ci)
+				e.assume(st, e.C.Eq(e.C.Select(ln, v.Terms[0]), e.C.BVLit64(0, 64)))
+				e.note("context.Context.Done(): a signal channel that is never sent on (length 0); whether it is closed is unknown at every call")
+			}
+			return v
+		},
 		"error.Error": func(e *Engine, f *frame, st *State, recv Val, args []Val, rt types.Type, pos string) Val {
 			v := e.fresh("errstr", rt)
 			e.assume(st, e.validVal(st, v))
